@@ -49,7 +49,7 @@ Apply(stk, st, dev) ==
     [] st[1] = "drop_columns"   -> SetTop(stk, DropColumns(top, st[2]))
     [] st[1] = "rename"         -> SetTop(stk, Rename(top, st[2]))
     [] st[1] = "order_rows"     -> SetTop(stk, OrderRows(top, st[2], st[3], st[4]))
-    [] st[1] = "join"           -> Append(SubSeq(stk, 1, n - 2), Join(stk[n - 1], top, st[2], st[3], dev))
+    [] st[1] = "join"           -> Append(SubSeq(stk, 1, n - 2), JoinDev(stk[n - 1], top, st[2], st[3], dev))
     [] st[1] = "concat"         -> Append(SubSeq(stk, 1, n - 2), Concat(stk[n - 1], top, st[2]))
 
 \* the documented construction rules (C26), evaluated on column lists only
